@@ -207,7 +207,7 @@ pub struct Summary {
     /// message prefix -> (count, smallest idx)
     pub viol_kinds: BTreeMap<String, (u64, u64)>,
 }
-const VIOL_CAP: usize = 60;
+const VIOL_CAP: usize = 40;
 impl Summary {
     pub fn add(&mut self, idx: u64, out: &CaseOut) {
         self.evaluations += 1;
@@ -224,7 +224,7 @@ impl Summary {
             }
             Verdict::Violation(m) => {
                 self.violations_total += 1;
-                let key: String = m.chars().take(70).collect();
+                let key: String = out.class.clone();
                 let fresh = !self.viol_kinds.contains_key(&key);
                 if self.viol_kinds.len() < 400 || !fresh {
                     let e = self.viol_kinds.entry(key).or_insert((0, idx));
@@ -257,9 +257,7 @@ impl Summary {
         }
         self.violations_total += o.violations_total;
         for v in &o.violations {
-            let key: String = v.1.chars().take(70).collect();
-            let fresh = !self.viol_kinds.contains_key(&key);
-            if (fresh || self.violations.len() < VIOL_CAP / 2) && self.violations.len() < VIOL_CAP {
+            if self.violations.len() < VIOL_CAP {
                 self.violations.push(v.clone());
             }
         }
@@ -370,8 +368,12 @@ pub fn worker_main(p: &dyn Property, shard: u64, of: u64, from: u64, to: u64, pr
 // ---------------------------------------------------------------------------------------------
 // parent side
 
+const MAX_DEATHS_PER_SHARD: u32 = 3;
+
 struct ShardResult {
     sum: Summary,
+    /// Some(n): the shard was abandoned after MAX_DEATHS_PER_SHARD dying cases with n cases left
+    stopped_early: Option<u64>,
     /// cases on which the worker died / hung: (idx, how)
     crashes: Vec<(u64, String)>,
     machinery_errors: Vec<String>,
@@ -511,7 +513,7 @@ fn run_child(
 }
 
 fn run_shard(exe: &Path, p_id: &str, tier: Tier, shard: u64, of: u64, total: u64, horizon: u64) -> ShardResult {
-    let mut res = ShardResult { sum: Summary::default(), crashes: vec![], machinery_errors: vec![] };
+    let mut res = ShardResult { sum: Summary::default(), stopped_early: None, crashes: vec![], machinery_errors: vec![] };
     let npos = if total > shard { (total - shard + of - 1) / of } else { 0 };
     let progress = cache_dir().join(format!("progress-{}-{}-{}-{}", p_id, tier.name(), std::process::id(), shard));
     let mut from = 0u64;
@@ -543,8 +545,10 @@ fn run_shard(exe: &Path, p_id: &str, tier: Tier, shard: u64, of: u64, total: u64
             res.crashes.push((shard + of * pos, how));
             from = pos + 1;
             crashes_here += 1;
-            if crashes_here > 200 {
-                res.machinery_errors.push(format!("shard {}: more than 200 dying cases, giving up on the shard", shard));
+            if crashes_here >= MAX_DEATHS_PER_SHARD {
+                // every further dying case costs a process restart (or a full horizon); the violations
+                // already recorded decide the verdict, the rest of the shard is reported as unexplored
+                res.stopped_early = Some(npos.saturating_sub(from));
                 break;
             }
         }
@@ -575,7 +579,11 @@ pub fn parent_main(p: &dyn Property, tier: Tier) -> RunResult {
     });
     let mut sum = Summary::default();
     let mut machinery: Vec<String> = vec![];
+    let mut unexplored = 0u64;
     for r in &results {
+        if let Some(n) = r.stopped_early {
+            unexplored += n;
+        }
         sum.merge(&r.sum);
         machinery.extend(r.machinery_errors.iter().cloned());
         for (idx, how) in &r.crashes {
@@ -623,9 +631,9 @@ pub fn parent_main(p: &dyn Property, tier: Tier) -> RunResult {
         }
     }
     if !sum.viol_kinds.is_empty() {
-        println!("violation kinds (message prefix: count, smallest case):");
+        println!("violation kinds (class: count, smallest case):");
         for (k, (n, i)) in &sum.viol_kinds {
-            println!("  {:>8} x  {}   e.g. #{} {}", n, one_line(k, 70), i, one_line(&p.describe(*i).to_string(), 160));
+            println!("  {:>8} x  {}   e.g. #{} {}", n, one_line(k, 90), i, one_line(&p.describe(*i).to_string(), 140));
         }
     }
     if sum.violations_total as usize > 25 {
@@ -633,6 +641,12 @@ pub fn parent_main(p: &dyn Property, tier: Tier) -> RunResult {
     }
     for m in &machinery {
         println!("MACHINERY-ERROR: {}", m);
+    }
+    if unexplored > 0 {
+        println!(
+            "NOTE: {} cases were not executed: shards were abandoned after {} dying/hanging cases each (verdict rests on the violations above)",
+            unexplored, MAX_DEATHS_PER_SHARD
+        );
     }
     let exhaustive = machinery.is_empty() && sum.evaluations == total;
     let nontrivial = sum.classes.keys().filter(|k| !k.starts_with("trivial")).count() as u64;
@@ -659,6 +673,7 @@ pub fn parent_main(p: &dyn Property, tier: Tier) -> RunResult {
             "traces_validated_against_impl": sum.traces,
             "exhaustive": exhaustive,
             "space_size": total,
+            "not_executed_after_repeated_process_deaths": unexplored,
             "bounds": p.bounds(),
             "outcome_classes": top_classes,
             "skipped_unspecified": sum.skipped,
